@@ -19,9 +19,9 @@ def run(tier, seed):
     ctx = core.Ctx(PID, tier, seed)
     quick = tier == "quick"
     rng = random.Random(seed)
-    X.mc_stage(ctx, ["sage_a"] if quick else ["sage_a", "sage_b", "sage_c", "sage_d", "sage_e"],
+    X.mc_stage(ctx, ["sage_a"] if quick else ["sage_a", "sage_b", "sage_c", "sage_d", "sage_e", "sage_o", "sage_def"],
                "ContributionDefinition ChainEndsAtModelLoss RunningStatistic VarNonNegative LockStep")
-    X.replay_stage(ctx, ["sage_q"] if quick else ["sage_q", "sage_a", "sage_prod", "sage_d3"], wanted_replay,
+    X.replay_stage(ctx, ["sage_q"] if quick else ["sage_q", "sage_a", "sage_prod", "sage_d3", "sage_o", "sage_def"], wanted_replay,
                    limit=None if quick else 3000, rng=rng)
     n = 120 if quick else 1500
     scs = E.fault_free_batch(rng, n, quick, cls="sage")
